@@ -12,6 +12,7 @@ CONSTANTS
   RM = {"q"}
   SWV = {0}
   SAV = {1}
+  RS = TRUE
 CONSTRAINT Bound
 INVARIANT Emit1
 CHECK_DEADLOCK FALSE
